@@ -89,6 +89,9 @@ type cliRun struct {
 	err      error
 }
 
+// cliLogPrefill: content the io-log file already holds when the CLI starts (the log of an earlier, longer run)
+var cliLogPrefill []byte
+
 // cliViaLink: name the serial port through a symbolic link (/dev/serial/by-id/..., a udev SYMLINK+= name) instead of the device node
 var cliViaLink bool
 
@@ -119,6 +122,7 @@ func runVecli(bin string, dev *DevPort, verbose, ioLog bool, limit time.Duration
 	if ioLog {
 		f, _ := os.CreateTemp("", "verif-iolog-*")
 		logPath = f.Name()
+		f.Write(cliLogPrefill) // what an earlier run left in the file
 		f.Close()
 		defer os.Remove(logPath)
 		args = append(args, "--io-log", logPath)
@@ -243,27 +247,29 @@ func suiteC20(rng *Rng, thorough bool, s *Sink) {
 		latency  int  // milliseconds the device takes for every answer (well below the 200 ms read timeout)
 		async    int  // an asynchronous frame precedes every async-th answer
 		link     bool // the port is named through a symbolic link
+		prefill  bool // the io-log file already holds the log of an earlier run
 	}
 	var scens []scen
 	for i, id := range ids {
-		scens = append(scens, scen{id, false, false, -1, false, false, 0, 0, false})
-		scens = append(scens, scen{id, i%2 == 0, true, -1, false, false, 0, 0, false})
+		scens = append(scens, scen{id, false, false, -1, false, false, 0, 0, false, false})
+		scens = append(scens, scen{id, i%2 == 0, true, -1, false, false, 0, 0, false, false})
 		if thorough {
-			scens = append(scens, scen{id, true, false, -1, false, false, 0, 0, false}, scen{id, true, true, -1, false, false, 0, 0, false})
+			scens = append(scens, scen{id, true, false, -1, false, false, 0, 0, false, false}, scen{id, true, true, -1, false, false, 0, 0, false, false})
 		}
 	}
 	// a slow but healthy device (75 ms per answer: about four seconds for the whole list), a device that keeps sending
 	// asynchronous frames between its answers (with the io log on: it must still replay)
 	scens = append(scens, scen{id: 0xA05F, silent: -1, latency: 75}, scen{id: 0xA381, ioLog: true, silent: -1, async: 4}, scen{id: 0xA056, ioLog: true, verbose: true, silent: -1, async: 1})
 	scens = append(scens, scen{id: 0xA056, silent: -1, link: true}, scen{id: 0x203, ioLog: true, silent: -1, link: true})
+	scens = append(scens, scen{id: 0xA053, ioLog: true, silent: -1, prefill: true}, scen{id: 0xA381, ioLog: true, verbose: true, silent: -1, prefill: true}, scen{id: 0x203, ioLog: true, silent: 4, prefill: true})
 	// silent exactly at the last registers read (the field-list group comes last): -2 = after all but one answer, -3 = all but two
-	scens = append(scens, scen{0xA056, false, false, -2, false, false, 0, 0, false}, scen{0xA231, false, true, -2, false, false, 0, 0, false}, scen{0xA231, true, false, -3, false, false, 0, 0, false},
-		scen{0xA05F, false, false, -2, false, false, 0, 0, false}, scen{0x203, false, false, -2, false, false, 0, 0, false})
-	scens = append(scens, scen{0xA056, false, false, 0, false, false, 0, 0, false}, scen{0xA381, false, true, 7, false, false, 0, 0, false}, scen{0x203, true, false, 3, false, false, 0, 0, false}, scen{0xA231, false, false, -1, true, false, 0, 0, false},
-		scen{0xA053, false, false, 5, false, true, 0, 0, false}, scen{0x203, false, true, 0, false, true, 0, 0, false})
+	scens = append(scens, scen{0xA056, false, false, -2, false, false, 0, 0, false, false}, scen{0xA231, false, true, -2, false, false, 0, 0, false, false}, scen{0xA231, true, false, -3, false, false, 0, 0, false, false},
+		scen{0xA05F, false, false, -2, false, false, 0, 0, false, false}, scen{0x203, false, false, -2, false, false, 0, 0, false, false})
+	scens = append(scens, scen{0xA056, false, false, 0, false, false, 0, 0, false, false}, scen{0xA381, false, true, 7, false, false, 0, 0, false, false}, scen{0x203, true, false, 3, false, false, 0, 0, false, false}, scen{0xA231, false, false, -1, true, false, 0, 0, false, false},
+		scen{0xA053, false, false, 5, false, true, 0, 0, false, false}, scen{0x203, false, true, 0, false, true, 0, 0, false, false})
 	if thorough {
 		for k := 0; k < 30; k++ {
-			scens = append(scens, scen{ids[rng.Intn(len(ids))], rng.Bool(), rng.Bool(), rng.Intn(40), false, rng.Bool(), 0, 0, false})
+			scens = append(scens, scen{ids[rng.Intn(len(ids))], rng.Bool(), rng.Bool(), rng.Intn(40), false, rng.Bool(), 0, 0, false, false})
 		}
 	}
 	for _, sc := range scens {
@@ -309,9 +315,27 @@ func suiteC20(rng *Rng, thorough bool, s *Sink) {
 		}
 		sort.Strings(mp)
 		limit := 30 * time.Second
+		cliLogPrefill = nil
+		if sc.prefill {
+			// about 8 KiB: longer than the log of the run to come is unlikely to be, and not a multiple of any line length
+			var sb strings.Builder
+			for i := 0; sb.Len() < 8000; i++ {
+				fmt.Fprintf(&sb, "%q: %q, // GetString(0x%X) = an earlier run, line %d, with a long text value of the old boat house\n", fmt.Sprintf(":7%02X0100%02X\n", i%256, (0x4D-i%256)&0xFF), ":70A010053686F72\n", 0x10A, i)
+			}
+			cliLogPrefill = []byte(sb.String())
+		}
 		cliViaLink = sc.link
 		run := runVecli(bin, dev, sc.verbose, sc.ioLog, limit)
 		cliViaLink = false
+		if sc.prefill {
+			if !strings.HasPrefix(run.ioLog, string(cliLogPrefill)) {
+				s.Violate(fmt.Sprintf("CL %d io log appended to an existing file", sc.id), run.ioLog[:min(len(run.ioLog), 200)], fmt.Sprintf("the io-log file held %d bytes of an earlier run's log; after this run it no longer starts with them (the new log must be appended: a log written over the old one can be neither parsed nor replayed)", len(cliLogPrefill)))
+				run.ioLog = ""
+			} else {
+				run.ioLog = run.ioLog[len(cliLogPrefill):]
+			}
+			cliLogPrefill = nil
+		}
 		m := strings.Join(mp, ",")
 		if m == "" {
 			m = "-"
@@ -336,6 +360,9 @@ func suiteC20(rng *Rng, thorough bool, s *Sink) {
 		}
 		if sc.link {
 			op += " mut:port-named-through-a-symlink"
+		}
+		if sc.prefill {
+			op += " mut:io-log-file-holds-an-earlier-log"
 		}
 		tag := "full"
 		if sc.silent >= 0 {
